@@ -177,7 +177,12 @@ func (s *Store) Delete(ctx context.Context, target ocispec.Descriptor) error {
 			if err != nil {
 				return err
 			}
-			deleteQueue = append(deleteQueue, referrers...)
+			for _, r := range referrers {
+				// a referrer that carries a tag is kept, like any other tagged node
+				if !s.isTagged(r) {
+					deleteQueue = append(deleteQueue, r)
+				}
+			}
 		}
 
 		// delete the head of queue
